@@ -9,7 +9,20 @@ from dataclasses import dataclass, field
 from ..core.runner import HarnessError
 from . import poly as P
 from .cexpr import CSyntaxError, const_int, parse_expr, unparse
-from .stmts import Macros, classify, find_function_body, preprocess, read_macros, split_statements
+from .stmts import Macros, classify, find_function_body as _find_function_body, preprocess, read_macros, split_statements
+
+
+def find_function_body(text, head_regex):
+    """the entry points of a back-end are part of what is rendered for it: sources that lack one (e.g. the CPU routine
+    where the CUDA kernel belongs) are the generated code's defect, reported like a statement that is not C"""
+    from ..core.runner import HarnessError
+
+    try:
+        return _find_function_body(text, head_regex)
+    except HarnessError as e:
+        if "not found" in str(e):
+            raise NotC(f"<sources of this back-end: function matching {head_regex}>", "the function this back-end's solver calls is not among the rendered sources")
+        raise
 
 
 class NotC(Exception):
